@@ -6,6 +6,8 @@ from vlib import strings as S
 from vlib import render as RR
 
 ID = "C11"
+# look-alikes of prelude names (vlib/defs.py HOSTILE) this check's derives are immune to on the unchanged tree
+HOSTILE_OK = ['From', 'Result', 'Some', 'Ok', 'Iterator', 'Clone', 'AsRef', 'Send', 'PhantomData']
 PROP_FILE = "Props/C11.v"
 RULE = ("definitions: enums with a default variant (tuple / single named field; inner String, Box<str>, a user type with From<&str>; "
         "declared first, in the middle, last; with or without spellings of its own) and/or transparent variants (tuple / named; inner "
